@@ -323,7 +323,20 @@ pub fn parse_record(defs: &str, seed: u64, n: usize, maxlen: usize, out: &str) {
 }
 
 // ------------------------------------------------------------------ C08: pairs of spellings
-fn spell_line(cmd: &Command, d: &Value, di: usize, a: &Value, b: &Value, amb: bool) -> Value {
+/// `noidx`: the two spellings are documented to agree up to argument indices (a short flag subcommand inside a group of
+/// short flags hands its position on to the subcommand's parser, a detached one starts counting afresh)
+fn strip_idx(o: &Value) -> Value {
+    let mut o = obs_core(o);
+    if let Some(ch) = o["chain"].as_array_mut() {
+        for lv in ch.iter_mut() {
+            if let Some(args) = lv["args"].as_array_mut() {
+                for a in args.iter_mut() { a["idx"] = json!([]); }
+            }
+        }
+    }
+    o
+}
+fn spell_line(cmd: &Command, d: &Value, di: usize, a: &Value, b: &Value, amb: bool, noidx: bool) -> Value {
     let (aa, bb) = (argv_with_bin(d, a), argv_with_bin(d, b));
     let oa = run(cmd, &aa, None);
     let ob = run(cmd, &bb, None);
@@ -338,7 +351,8 @@ fn spell_line(cmd: &Command, d: &Value, di: usize, a: &Value, b: &Value, amb: bo
         }))
         .unwrap_or(false)
     };
-    json!({"d": di + 1, "a": a, "b": b, "obsA": obs_core(&oa), "obsB": obs_core(&ob), "same": same, "amb": amb})
+    let (oa, ob) = if noidx { (strip_idx(&oa), strip_idx(&ob)) } else { (obs_core(&oa), obs_core(&ob)) };
+    json!({"d": di + 1, "a": a, "b": b, "obsA": oa, "obsB": ob, "same": same || noidx, "amb": amb, "noidx": noidx})
 }
 
 pub fn spell_replay(defs: &str, input: &str, out: &str, div: &str) {
@@ -350,9 +364,12 @@ pub fn spell_replay(defs: &str, input: &str, out: &str, div: &str) {
         let di = r["d"].as_u64().unwrap() as usize - 1;
         let Ok(cmd) = &d.cmds[di] else { rep.count("gate_rejected", 1); continue };
         let amb = r["amb"].as_bool().unwrap_or(false);
-        let line = spell_line(cmd, &d.recs[di], di, &r["a"], &r["b"], amb);
+        let noidx = r["noidx"].as_bool().unwrap_or(false);
+        let line = spell_line(cmd, &d.recs[di], di, &r["a"], &r["b"], amb, noidx);
         let a_ok = line["obsA"]["outcome"] == "Ok";
-        let ok = obs_matches(&r["obs"], &line["obsB"]) && (!a_ok || (obs_matches(&r["obs"], &line["obsA"]) && line["same"] == true))
+        let want = if noidx { strip_idx(&r["obs"]) } else { r["obs"].clone() };
+        let r_obs = &want;
+        let ok = obs_matches(r_obs, &line["obsB"]) && (!a_ok || (obs_matches(r_obs, &line["obsA"]) && line["same"] == true))
             && !(amb && line["obsB"]["outcome"] != "Err");
         if !ok {
             rep.mismatch(json!({"label": d.recs[di]["label"], "line": line, "want": obs_core(&r["obs"])}));
@@ -378,16 +395,17 @@ pub fn spell_record(defs: &str, seed: u64, n: usize, maxelems: usize, out: &str)
         let els = d.recs[di]["elements"].as_array().unwrap();
         if els.is_empty() { continue; }
         let k = rng.gen_range(1..=maxelems);
-        let (mut a, mut b, mut amb) = (vec![], vec![], false);
+        let (mut a, mut b, mut amb, mut noidx) = (vec![], vec![], false, false);
         for _ in 0..k {
             let e = &els[rng.gen_range(0..els.len())];
             let sp = e["sp"].as_array().unwrap();
             a.extend(sp[0].as_array().unwrap().iter().cloned());
             b.extend(sp[rng.gen_range(0..sp.len())].as_array().unwrap().iter().cloned());
             amb = amb || e["amb"] == true;
+            noidx = noidx || e["noidx"] == true;
             if e["last"] == true { break; }
         }
-        w.put(&spell_line(d.cmds[di].as_ref().unwrap(), &d.recs[di], di, &Value::Array(a), &Value::Array(b), amb));
+        w.put(&spell_line(d.cmds[di].as_ref().unwrap(), &d.recs[di], di, &Value::Array(a), &Value::Array(b), amb, noidx));
     }
     w.finish();
 }
